@@ -84,3 +84,16 @@ class RunBase:
             return False
         self.out.violation = v
         return True
+
+
+def check_poison_consistent(plan):
+    """A plan whose header says 'poisoned' must still hold the unresolvable value in its pool (a shrinking step that
+    removes it would leave an oracle expecting a failure that can no longer happen): such a plan is not a plan."""
+    import json
+    from sim.kernel import HarnessError
+    p = plan['header'].get('poisoned')
+    if not p:
+        return
+    val = p[-1]
+    if json.dumps(val)[1:-1] not in json.dumps(plan['pool']):
+        raise HarnessError(f"inconsistent plan: header says poisoned {p} but the value is not in the pool")
